@@ -12,6 +12,7 @@ import (
 	"time"
 
 	"github.com/prometheus/client_golang/prometheus"
+	"google.golang.org/protobuf/encoding/protowire"
 	"google.golang.org/protobuf/proto"
 	"google.golang.org/protobuf/types/known/timestamppb"
 
@@ -48,7 +49,7 @@ func genLiveHistory(r *vh.Rand, last string) Case {
 	}
 	c.Hist = append(c.Hist, mk("tick")) // a snapshot holding the silences as they are now
 	for i := r.Range(0, 2); i > 0; i-- { // changes that neither add nor remove a silence, ticks in between
-		c.Hist = append(c.Hist, mk(vh.Pick(r, []string{"update", "expire", "tick"})))
+		c.Hist = append(c.Hist, mk(vh.Pick(r, []string{"update", "expire", "tick", "marshal", "merge_replace"})))
 	}
 	c.Hist = append(c.Hist, mk(last))
 	if r.Chance(1, 3) {
@@ -57,14 +58,14 @@ func genLiveHistory(r *vh.Rand, last string) Case {
 	return c
 }
 
-func liveHistoryKinds() []string { return []string{"expire", "update"} }
+func liveHistoryKinds() []string { return []string{"expire", "update", "merge_replace"} }
 
 func liveHistoryCase(t *testing.T, run *vh.Run, c *Case) {
 	dir := t.TempDir()
 	snapf := filepath.Join(dir, storeName(storeSilence))
 	lastKind := ""
 	for _, op := range c.Hist {
-		if op.Kind != "tick" {
+		if op.Kind != "tick" && op.Kind != "marshal" {
 			lastKind = op.Kind
 		}
 	}
@@ -113,6 +114,35 @@ func liveHistoryCase(t *testing.T, run *vh.Run, c *Case) {
 				}
 				if err := s.Set(ctx, upd); err == nil && upd.Id != id {
 					local = append(local, upd.Id)
+				}
+			case "marshal": // a full-state push to a joining peer
+				if _, err := s.MarshalBinary(); err != nil {
+					t.Fatal(err)
+				}
+			case "merge_replace":
+				// a newer version of an EXISTING silence arrives from a peer (expired or edited there)
+				q, _, err := s.Query(ctx)
+				if err != nil || len(q) == 0 {
+					continue
+				}
+				sort.Slice(q, func(i, j int) bool { return q[i].Id < q[j].Id })
+				cur := q[op.Idx%len(q)]
+				nv := proto.Clone(cur).(*spb.Silence)
+				nv.UpdatedAt = timestamppb.New(maxTime(cur.UpdatedAt.AsTime(), now).Add(time.Second))
+				if op.Idx%2 == 0 {
+					nv.EndsAt = timestamppb.New(now)
+				} else {
+					nv.Comment = "edited-elsewhere-" + op.Txt
+					nv.EndsAt = timestamppb.New(now.Add(4 * time.Hour))
+				}
+				b, err := detMarshal.Marshal(&spb.MeshSilence{Silence: nv, ExpiresAt: timestamppb.New(now.Add(9 * time.Hour))})
+				if err != nil {
+					t.Fatal(err)
+				}
+				framed := append(protowire.AppendVarint(nil, uint64(len(b))), b...)
+				if err := s.Merge(framed); err != nil {
+					fail("valid-gossip-message-refused", "Merge refuses a well-formed message: "+err.Error())
+					continue
 				}
 			case "tick":
 				time.Sleep(liveInterval)
